@@ -1,7 +1,11 @@
 // Package shrink minimises a failing choice tape.
 package shrink
 
-import "time"
+import (
+	"time"
+
+	"github.com/lni/dragonboat/v4/verifsim/realclock"
+)
 
 // Test re-executes a candidate tape and reports whether the same violation
 // class is still reported, and how many draws the run consumed before the
@@ -18,9 +22,9 @@ type Stats struct {
 // Shrink minimises tape under test, bounded by wall clock and executions.
 func Shrink(tape []uint32, test Test, budget time.Duration, maxExecs int) ([]uint32, Stats) {
 	st := Stats{From: len(tape)}
-	deadline := time.Now().Add(budget)
+	deadline := realclock.Now() + budget
 	cur := append([]uint32(nil), tape...)
-	out := func() bool { return st.Execs >= maxExecs || time.Now().After(deadline) }
+	out := func() bool { return st.Execs >= maxExecs || realclock.Now() > deadline }
 	try := func(c []uint32) bool {
 		if out() {
 			return false
